@@ -171,3 +171,24 @@ ADD4 = {
 }
 for _k, _v in ADD4.items():
     CHECKS[_k]["text"] += " " + _v
+
+
+# ---- additions of wave 8 (DESIGN.md 7): SCTP passes on a fake `sctp` module, and the wave's strengthenings
+ADD5 = {
+ "C02": "Header-only AVPs with and without vendor id in the body alphabet.",
+ "C06": "SCTP pass: six of the models with the node listening on SCTP and SCTP peers (fake sctp module: bindx / accept / connectx / sctp_send).",
+ "C07": "SCTP pass (3 models); model with long silences (> 1000 s) between answers of one kind, elapsed time in the state key.",
+ "C08": "Application whose peers live in two realms plus an additional realm; reads ending 28 bytes into the next request; long silences with the elapsed time in the state key.",
+ "C09": "SCTP pass (2 models); schedule exploration (bound 1/2, line points in send_dwr / reset_last_dwr / receive_dpr) of the idle time-out expiring in the instant of the peer's DPR while an answer is held: the held answer must be refused afterwards.",
+ "C11": "SCTP pass (one inbound, one outbound model).",
+ "C12": "SCTP pass (6 models); three persistent peers of which the first has no addresses.",
+ "C13": "SCTP pass (5 models).",
+ "C14": "Outbound probe in the outbound-handshake scenarios: a persistent peer that lost its connection is dialled again after the reconnect wait, completes the handshake and is served.",
+ "C15": "A remainder pending behind a partial write (peer stopped reading) when the next messages are queued and the peer reads again (bound 2).",
+ "C16": "2 / 3 connections with equal hop-by-hop start values, selection callback picking each peer in turn, own requests around a watchdog round: identifiers distinct per connection.",
+ "C17": "Two Node objects one after the other in one process (what the first answered is nothing the second has answered), run before anything is explored.",
+ "C18": "SCTP cases (listener bound with bindx, accepted and dialled SCTP sockets); schedule exploration of the DPA's arrival (line points in receive_dpa / PeerConnection.close).",
+ "C19": "Every cycle also over SCTP (3 vs 12 repetitions); schedule exploration of a connection ending itself (line points in PeerConnection.close / demand_attention), retained state after one and after two such connections.",
+}
+for _k, _v in ADD5.items():
+    CHECKS[_k]["text"] += " " + _v
